@@ -15,7 +15,7 @@ Vec(e, f) ==
    variants |-> <<Render(e, "full", 0), Render(e, "min", 1), Render(e, "full", 2), Render(e, "min", 2)>>,
    prog |-> Compile(e),
    calls |-> ev.calls,
-   t |-> v.t, judged |-> v.j,
+   t |-> v.t, vclass |-> ValClass(v), judged |-> v.j,
    rb |-> ToBool(v), rn |-> ToNum(v), rs |-> ToStr(v),
    rnJudged |-> v.j /\ ~IsOOM(ToNum(v))]
 GInit == fam \in Fams /\ done = FALSE
